@@ -381,23 +381,37 @@ pub fn streams_walk(args: &Args) -> i32 {
                     let (obs, src) = run_history(&lts, hist, i as u64);
                     runs += 1;
                     // expected per op from the strict table
-                    let expect = |l: &Lts| -> Option<Vec<Value>> {
+                    // (expected results, whether the table has an edge for every op of the history)
+                    let expect = |l: &Lts| -> (Vec<Value>, bool) {
                         let mut st = l.init;
                         let mut v = vec![];
                         for h in hist {
                             let mut o = lts.ops[*h].clone();
                             o.as_object_mut().unwrap().remove("res");
-                            let oi = *l.op_index.get(&serde_json::to_string(&o).unwrap())?;
-                            let (t, res) = l.edges[st][oi].as_ref()?;
+                            let Some(&oi) = l.op_index.get(&serde_json::to_string(&o).unwrap()) else { return (v, false) };
+                            let Some((t, res)) = l.edges[st][oi].as_ref() else { return (v, false) };
                             v.push(res.clone());
                             st = *t as usize;
                         }
-                        Some(v)
+                        (v, true)
                     };
-                    let want = expect(&lts).unwrap();
+                    let (want, complete) = expect(&lts);
+                    assert!(complete, "histories are paths of the strict table");
                     let ok = want.iter().zip(obs.iter()).all(|(w, g)| obs_matches(w, g));
                     if !ok {
-                        let explained = dev.as_ref().and_then(|d| expect(d)).map(|w| w.iter().zip(obs.iter()).all(|(w, g)| obs_matches(w, g))).unwrap_or(false);
+                        // In the table with the deviations a read may fail earlier than in the strict one;
+                        // a failed read ends a history in both (what follows an error is not specified),
+                        // so the deviant table explains the run if it predicts every observation up to
+                        // and including its own failing read.
+                        let explained = dev
+                            .as_ref()
+                            .map(|d| {
+                                let (w, complete) = expect(d);
+                                let ends_in_error =
+                                    w.last().and_then(|r| r.get("err")).and_then(|e| e.as_str()).map(|e| !e.is_empty()).unwrap_or(false);
+                                !w.is_empty() && (complete || ends_in_error) && w.iter().zip(obs.iter()).all(|(w, g)| obs_matches(w, g))
+                            })
+                            .unwrap_or(false);
                         if viol.len() < 200 {
                             viol.push(json!({"kind":"violation","part":"streams","program":src,"want":want,"got":obs,
                                 "explained_by_deviations":explained,"len":hist.len()}));
